@@ -21,6 +21,18 @@ UNDEF = ["nope", "zz9", "v100", "va", "5", "1v", "_"]
 MSG = "Session variable '${}' does not exist"
 
 
+NOP15 = ["^call ", r"^select 'skip"]      # nop_regexes of the histories flagged `nop`
+
+
+def flat(ops):
+    """the statements of a history in execution order (an execute_string script contributes its statements)"""
+    for o in ops:
+        if o["op"] == "e":
+            yield from o["subs"]
+        else:
+            yield o
+
+
 def spell(name: str, rnd: random.Random) -> str:
     k = rnd.random()
     if k < 0.3:
@@ -57,7 +69,7 @@ def clean_str(rnd: random.Random) -> str:
             return s
 
 
-def gen_history(rnd: random.Random, hid: int) -> dict:
+def gen_history(rnd: random.Random, hid: int, nop: bool = False) -> dict:
     nconn = 2
     spec = [dict() for _ in range(nconn)]          # NAME -> python value
     ops = []
@@ -101,6 +113,55 @@ def gen_history(rnd: random.Random, hid: int) -> dict:
             name = rnd.choice(defined)
             ops.append({"op": "u", "conn": i, "cur": cur, "name": name, "sql": f"{rnd.choice(['unset', 'UNSET'])} {spell(name.lower(), rnd)}"})
             del spec[i][name]
+        elif r < 0.5 and rnd.random() < 0.6:
+            # an execute_string script that SETs / UNSETs a variable and then references it: every statement of the script sees the
+            # SETs and UNSETs of the statements before it
+            subs = []
+            name = rnd.choice(pool).upper()
+            for part in range(rnd.randint(1, 2)):
+                if name in spec[i] and rnd.random() < 0.3:
+                    subs.append({"op": "u", "conn": i, "cur": cur, "name": name, "sql": f"unset {spell(name.lower(), rnd)}"})
+                    del spec[i][name]
+                else:
+                    if rnd.random() < 0.5:
+                        val = rnd.randint(0, 99)
+                        written, kind = str(val), "N:" + enc_str(str(val))
+                    else:
+                        val = clean_str(rnd)
+                        written, kind = sql_str(val, rnd), "S:" + enc_str(val)
+                    subs.append({"op": "s", "conn": i, "cur": cur, "name": name, "kind": kind, "sql": f"SET {spell(name.lower(), rnd)} = {written}"})
+                    spec[i][name] = val
+                ref = "$" + spell(name.lower(), rnd)
+                others = [n for n in spec[i] if n != name]
+                extra = rnd.choice(others) if others and rnd.random() < 0.5 else None
+                items = [ref] + (["$" + spell(extra.lower(), rnd)] if extra else [])
+                if name in spec[i]:
+                    subs.append({"op": "q", "conn": i, "cur": cur, "sql": "select " + ", ".join(items), "expect": [[canon(spec[i][n]) for n in [name] + ([extra] if extra else [])]],
+                                 "err": None, "lit": False, "undef_item": None, "recipe": None})
+                else:
+                    subs.append({"op": "q", "conn": i, "cur": cur, "sql": "select " + ", ".join(items), "expect": None, "err": name, "lit": False, "undef_item": ref, "recipe": None})
+                    break
+            ops.append({"op": "e", "conn": i, "cur": cur, "subs": subs, "sql": ";\n".join(x["sql"] for x in subs) + rnd.choice(["", ";", " ;\n"])})
+        elif nop and r < 0.56:
+            # nop-matched statements that reference variables: the reference is resolved FIRST (an undefined one raises), and the
+            # patterns see the substituted text (a statement may match only after substitution)
+            k = rnd.random()
+            if k < 0.6:
+                n2 = rnd.choice(list(spec[i]) + UNDEF + [p for p in pool])
+                ref = "$" + spell(n2.lower(), rnd)
+                sql = f"{rnd.choice(['call', 'CALL', 'Call'])} proc({ref}, 1)"
+                if n2.upper() in spec[i]:
+                    ops.append({"op": "q", "conn": i, "cur": cur, "sql": sql, "expect": [[("str", "Statement executed successfully.")]], "err": None, "lit": False,
+                                "undef_item": None, "recipe": None})
+                else:
+                    ops.append({"op": "q", "conn": i, "cur": cur, "sql": sql, "expect": None, "err": n2.upper(), "lit": False, "undef_item": ref, "recipe": None})
+            else:
+                name = rnd.choice(pool).upper()
+                val = "skip " + rnd.choice(["me", "this one", "x'y", "a;b"])
+                ops.append({"op": "s", "conn": i, "cur": cur, "name": name, "kind": "S:" + enc_str(val), "sql": f"set {spell(name.lower(), rnd)} = {sql_str(val, rnd)}"})
+                spec[i][name] = val
+                ops.append({"op": "q", "conn": i, "cur": cur, "sql": f"select ${spell(name.lower(), rnd)}", "expect": [[("str", val)]], "err": None, "lit": False,
+                            "undef_item": None, "recipe": [("ref", name, None, "$" + name.lower())]})
         elif r < 0.53:
             # SET through a bound parameter: the only way a value can legally contain `$word` text — it must be kept verbatim
             name = rnd.choice(pool)
@@ -155,7 +216,7 @@ def gen_history(rnd: random.Random, hid: int) -> dict:
                         back = mirror(ops[-2], i, rnd.randrange(2), spec[i])
                         if back is not None:
                             ops.append(back)
-    return {"id": hid, "nconn": nconn, "ops": ops}
+    return {"id": hid, "nconn": nconn, "ops": ops, "nop": nop}
 
 
 def gen_query(rnd, i, cur, env: dict, pool, all_names=()) -> dict:
@@ -241,6 +302,8 @@ def gen_query(rnd, i, cur, env: dict, pool, all_names=()) -> dict:
 
 def mirror(op: dict, j: int, cur: int, env: dict) -> dict | None:
     """the byte-identical statement on another connection: what it must give there (that connection's variables)"""
+    if op.get("recipe") is None:
+        return None
     expect, err, undef_item = [], None, None
     for r in op["recipe"]:
         if r[0] == "const":
@@ -269,7 +332,7 @@ def _lines(hists):
     lines = []
     for h in hists:
         ops = []
-        for o in h["ops"]:
+        for o in flat(h["ops"]):
             if o["op"] == "m":
                 ops.extend(o["models"])
             elif o["op"] == "s":
@@ -287,11 +350,11 @@ def _lines(hists):
 def _attach(hists, replies):
     for h, rep in zip(hists, replies):
         obs = dec_list(rep["obs"])
-        if len(obs) != sum(len(o["models"]) if o["op"] == "m" else 1 for o in h["ops"]) or "bad" in obs:
+        if len(obs) != sum(len(o["models"]) if o["op"] == "m" else 1 for o in flat(h["ops"])) or "bad" in obs:
             raise common.Infra(f"model rejected history {h['id']}: {rep['_raw'][:300]}")
         it = iter(obs)
         pairs = []
-        for o in h["ops"]:
+        for o in flat(h["ops"]):
             if o["op"] == "m":
                 o["m_obs"] = [next(it) for _ in o["models"]]
             else:
@@ -330,62 +393,102 @@ def _select(cur, sql, params=None):
     return ("rows", [[canon(c) for c in r] for r in cur.fetchall()])
 
 
+def _run_q(o, cur, twin, real):
+    """a query op: the real outcome (given), the model's text on the twin, the no-execution probe for undefined references"""
+    params = tuple(o["params"]) if o["op"] == "b" else None
+    r = {"real": real}
+    if o["model"][0] == "ok" and not re.search(r"(?<!\$)\$\w", o["model"][1]):
+        # the model's inlined command on a connection without variables (the same values bound, if any); not possible
+        # when an inlined VALUE contains `$word` text (set through a bound parameter): the twin would scan it
+        r["twin"] = _outcome(lambda: _select(twin.cursor(), o["model"][1], params))
+    if o["op"] == "b" and o["m_pct"] and o["m_final"][0] == "ok" and not re.search(r"(?<!\$)\$\w", o["m_final"][1]):
+        r["twin_final"] = _outcome(lambda: _select(twin.cursor(), o["m_final"][1]))
+    if o.get("err"):
+        # nothing may be executed: a DML carrying the same undefined reference leaves the table alone
+        dml = f"insert into t select 1 where {o.get('undef_item') or '$' + o['err'].lower()} is null or true"
+        r["dml"] = _outcome(lambda: _select(cur, dml))
+        r["count"] = _outcome(lambda: _select(twin.cursor(), "select count(*) from t"))
+    return r
+
+
 def _worker(hists):
     import fakesnow
     import snowflake.connector as sc
-    out = []
-    with fakesnow.patch():
-        for h in hists:
-            conns = [sc.connect(database="d", schema="s") for _ in range(h["nconn"])]
-            twin = sc.connect(database="d", schema="s")
-            curs = [[c.cursor(), c.cursor()] for c in conns]
-            twin.cursor().execute("create or replace table t (id int)")
-            twin.cursor().execute("create or replace table tm (id int, v varchar, w varchar)")
-            res = []
-            for o in h["ops"]:
-                cur = curs[o["conn"]][o["cur"]]
-                if o["op"] == "m":
-                    def many(cur=cur, o=o):
-                        cur.executemany(o["sql"], [tuple(r) for r in o["rows"]])
-                        return ("rows", [[canon(c) for c in r] for r in cur.fetchall()])
-                    res.append({"real": _outcome(many)})
-                elif o["op"] in ("s", "u"):
-                    r = _outcome(lambda: _select(cur, o["sql"], tuple(o["params"]) if o.get("params") else None))
-                    res.append({"real": r})
-                else:
-                    params = tuple(o["params"]) if o["op"] == "b" else None
-                    r = {"real": _outcome(lambda: _select(cur, o["sql"], params))}
-                    if o["model"][0] == "ok" and not re.search(r"(?<!\$)\$\w", o["model"][1]):
-                        # the model's inlined command on a connection without variables (the same values bound, if any); not possible
-                        # when an inlined VALUE contains `$word` text (set through a bound parameter): the twin would scan it
-                        r["twin"] = _outcome(lambda: _select(twin.cursor(), o["model"][1], params))
-                    if o["op"] == "b" and o["m_pct"] and o["m_final"][0] == "ok" and not re.search(r"(?<!\$)\$\w", o["m_final"][1]):
-                        r["twin_final"] = _outcome(lambda: _select(twin.cursor(), o["m_final"][1]))
-                    if o.get("err"):
-                        # nothing may be executed: a DML carrying the same undefined reference leaves the table alone
-                        dml = f"insert into t select 1 where {o.get('undef_item') or '$' + o['err'].lower()} is null or true"
-                        r["dml"] = _outcome(lambda: _select(cur, dml))
-                        r["count"] = _outcome(lambda: _select(twin.cursor(), "select count(*) from t"))
-                    res.append(r)
-            out.append(res)
-    return out
+    out = {}
+    for nop in (False, True):
+        group = [(k, h) for k, h in enumerate(hists) if bool(h.get("nop")) == nop]
+        if not group:
+            continue
+        with fakesnow.patch(nop_regexes=NOP15 if nop else None):
+            for k, h in group:
+                conns = [sc.connect(database="d", schema="s") for _ in range(h["nconn"])]
+                twin = sc.connect(database="d", schema="s")
+                curs = [[c.cursor(), c.cursor()] for c in conns]
+                twin.cursor().execute("create or replace table t (id int)")
+                twin.cursor().execute("create or replace table tm (id int, v varchar, w varchar)")
+                res = []
+                for o in h["ops"]:
+                    cur = curs[o["conn"]][o["cur"]]
+                    if o["op"] == "e":
+                        # one execute_string call; its cursors belong to the statements in order
+                        try:
+                            cs = conns[o["conn"]].execute_string(o["sql"])
+                            reals = [("rows", [[canon(c) for c in row] for row in c_.fetchall()]) for c_ in cs]
+                            if len(reals) != len(o["subs"]):
+                                reals = [("err", "wrong-number-of-cursors", len(reals), None, None)] * len(o["subs"])
+                        except Exception as e:  # noqa: BLE001  (the cursors of the statements before the failing one are lost)
+                            err = _outcome(lambda e=e: (_ for _ in ()).throw(e))
+                            reals = [("lost",)] * (len(o["subs"]) - 1) + [err]
+                        subs = []
+                        for so, real in zip(o["subs"], reals):
+                            subs.append(_run_q(so, cur, twin, real) if so["op"] in ("q", "b") else {"real": real})
+                        res.append({"subs": subs})
+                    elif o["op"] == "m":
+                        def many(cur=cur, o=o):
+                            cur.executemany(o["sql"], [tuple(r) for r in o["rows"]])
+                            return ("rows", [[canon(c) for c in r] for r in cur.fetchall()])
+                        res.append({"real": _outcome(many)})
+                    elif o["op"] in ("s", "u"):
+                        r = _outcome(lambda: _select(cur, o["sql"], tuple(o["params"]) if o.get("params") else None))
+                        res.append({"real": r})
+                    else:
+                        params = tuple(o["params"]) if o["op"] == "b" else None
+                        res.append(_run_q(o, cur, twin, _outcome(lambda: _select(cur, o["sql"], params))))
+                out[k] = res
+    return [out[k] for k in range(len(hists))]
 
 
 OKROW = ("rows", [[("str", "Statement executed successfully.")]])
 
 
 def _judge(chk, h, res):
-    names = sorted({o["name"] for o in h["ops"] if o["op"] == "s"})
+    names = sorted({o["name"] for o in flat(h["ops"]) if o["op"] == "s"})
     prefix_pair = any(a != b and b.startswith(a) for a in names for b in names)
-    chk.case(("hist", tuple(o["sql"] for o in h["ops"])), nontrivial=any(o["op"] == "q" for o in h["ops"]))
-    chk.count("histories")
+    chk.case(("hist", bool(h.get("nop")), tuple(o["sql"] for o in h["ops"])), nontrivial=any(o["op"] == "q" for o in flat(h["ops"])))
+    chk.count("histories" + (":nop-instance" if h.get("nop") else ""))
     if prefix_pair:
         chk.count("histories:with-prefix-pair")
+    keep = ("op", "conn", "cur", "name", "kind", "sql", "expect", "err", "lit", "undef_item", "params", "wires", "mirror", "rows", "models", "want")
+
+    def slim(x):
+        d = {k: x[k] for k in keep if k in x}
+        if x["op"] == "e":
+            d["subs"] = [slim(y) for y in x["subs"]]
+        return d
+    steps = []          # (index of the history op, statement, its observation, the script it belongs to)
     for idx, (o, r) in enumerate(zip(h["ops"], res)):
-        keep = ("op", "conn", "cur", "name", "kind", "sql", "expect", "err", "lit", "undef_item", "params", "wires", "mirror", "rows", "models", "want")
-        case = {"kind": "hist", "nconn": h["nconn"], "ops": [{k: x[k] for k in keep if k in x} for x in h["ops"][: idx + 1]], "failing_op": idx}
+        if o["op"] == "e":
+            chk.count("op:e")
+            steps += [(idx, so, sr, o) for so, sr in zip(o["subs"], r["subs"])]
+        else:
+            steps.append((idx, o, r, None))
+    for idx, o, r, script in steps:
+        case = {"kind": "hist", "nconn": h["nconn"], "nop": bool(h.get("nop")), "ops": [slim(x) for x in h["ops"][: idx + 1]], "failing_op": idx}
         real = r["real"]
-        chk.count("op:" + o["op"])
+        if real == ("lost",):
+            continue            # cursor of a statement before the failing one of a script: its effect shows in the later statements
+        via = f" (statement of execute_string({script['sql']!r}))" if script else ""
+        chk.count("op:" + o["op"] + (":in-script" if script else ""))
         if o.get("mirror"):
             chk.count("q:mirror-identical-text-other-connection")
         if o["op"] == "m":
@@ -400,7 +503,7 @@ def _judge(chk, h, res):
             want = OKROW if o["model"][0] == "d" else None
             if o["model"][0] == "d" and real == OKROW:
                 continue
-            chk.violation(f"history #{h['id']} op {idx} `{o['sql']}` on connection {o['conn']}: returned {_short(real)}, the model of SET/UNSET says {o['model']}", case,
+            chk.violation(f"history #{h['id']} op {idx} `{o['sql']}`{via} on connection {o['conn']}: returned {_short(real)}, the model of SET/UNSET says {o['model']}", case,
                           broken="C15_set/C15_unset (correspondence Fs.Vars.wstep)")
             return
         if o["m_bad"]:
@@ -413,6 +516,12 @@ def _judge(chk, h, res):
             chk.count("q:undefined")
         else:
             want = ("rows", [list(x) for x in o["expect"]])
+            if h.get("nop") and o["model"][0] == "ok":
+                # nop_regexes see the command after variable inlining and parameter binding
+                text = o["m_final"][1] if o["op"] == "b" and o["m_final"][0] == "ok" else o["model"][1]
+                if any(re.match(p_, text, re.IGNORECASE) for p_ in NOP15):
+                    want = OKROW
+                    chk.count("q:nop-matched-after-substitution")
             held = real == want
             chk.count("q:defined" + (":lit" if o["lit"] else ""))
         # model prediction
@@ -441,7 +550,7 @@ def _judge(chk, h, res):
                 return
             chk.count("held")
             continue
-        what = (f"history #{h['id']} (connection {o['conn']}, cursor {o['cur']}) after {[x['sql'] for x in h['ops'][:idx]]}: `{o['sql']}`{(' with bound parameters ' + repr(tuple(o['params']))) if o['op'] == 'b' else ''} gave {_short(real)} "
+        what = (f"history #{h['id']} (connection {o['conn']}, cursor {o['cur']}) after {[x['sql'] for x in h['ops'][:idx]]}: `{o['sql']}`{via}{(' with bound parameters ' + repr(tuple(o['params']))) if o['op'] == 'b' else ''} gave {_short(real)} "
                 f"but the variables stand for {_short(want)}" + (f"; dml={r.get('dml')} count={r.get('count')}" if o["err"] else ""))
         if o["m_lit"] and pred_ok:
             chk.finding("C15/dollar-in-literal-or-comment", what, case)
@@ -522,7 +631,7 @@ def run(chk) -> None:
                 "2 connections × 2 cursors + a variable-free twin.  non-trivial = distinct history containing a query")
     gen_ties(chk)
     n = 320 if chk.tier == "quick" else 6000
-    hists = corpus_histories() + [gen_history(rnd, k) for k in range(n)]
+    hists = corpus_histories() + [gen_history(rnd, k, nop=(k % 4 == 3)) for k in range(n)]
     _execute(chk, hists)
     chk.samples = [[o["sql"] for o in h["ops"]] for h in hists[7:10]]
     chk.trusted += ["CPython re: \\w on ASCII, leftmost non-overlapping matches, look-behind (Fs.Vars.tokenize, compared on every run through the twin execution)",
@@ -536,10 +645,12 @@ def replay(chk, case) -> None:
     if case.get("kind") == "sflit":
         chk.violation("engine-model disagreement replays are re-run by the full check (gen_ties)", case, broken="engine tie", failing_input=False)
         return
-    ops = []
-    for o in case["ops"]:
+    def thaw(o):
         o = dict(o)
         if o.get("expect") is not None:
             o["expect"] = [[tuple(c) for c in row] for row in o["expect"]]
-        ops.append(o)
-    _execute(chk, [{"id": 0, "nconn": case.get("nconn", 2), "ops": ops}])
+        if o.get("subs"):
+            o["subs"] = [thaw(x) for x in o["subs"]]
+        return o
+    ops = [thaw(o) for o in case["ops"]]
+    _execute(chk, [{"id": 0, "nconn": case.get("nconn", 2), "ops": ops, "nop": case.get("nop", False)}])
